@@ -52,8 +52,17 @@ ASSUME Cardinality(Options) = 3 * 2 * 2 * 2 * 10 * 2 * 2 * 2 * 2
 \* the shipped HTML controls (pyglove/core/views/html/controls) with their option combinations; all
 \* parameters are small ints (meaning per control in pgverif/htmldoc.py: build_control);
 \* wrap: 0 = rendered on its own, 1 = as a value inside a pg.Dict, 2 = inside a plain list
-Ctl(name, P1, P2, P3, P4) == [ctl : {name}, p1 : P1, p2 : P2, p3 : P3, p4 : P4, wrap : 0..2]
-Controls ==
+\* upd: the HISTORY of the control before the rendering that is validated:
+\*   0 = rendered as constructed; 1 = changed through its public update API (Tooltip.update, Label.update,
+\*   TabControl.append/insert/select, SubProgress.increment/update, ProgressBar.update ...) before any
+\*   rendering; 2 = rendered, then changed through the update API, then rendered again.
+\* Law compared by the harness: the document equals the rendering of a control CONSTRUCTED with the fields
+\* the updated control now holds (ids aside) - every leaf it currently holds is shown, nothing stale.
+Ctl(name, P1, P2, P3, P4) == [ctl : {name}, p1 : P1, p2 : P2, p3 : P3, p4 : P4, wrap : 0..2, upd : 0..2]
+Interactive(c) == CASE c.ctl = "tab" -> TRUE
+                    [] c.ctl \in {"label", "badge", "labelgroup", "progress"} -> c.p3 = 1
+                    [] c.ctl = "tooltip" -> c.p2 = 1
+AllControls ==
   \* TabControl: p1 tab_position (0 top, 1 left), p2 number of tabs, p3 selected, p4 kind of tab content
   {c \in Ctl("tab", 0..1, 1..3, 0..2, 0..2) : c.p3 < c.p2}
   \* Label / Badge: p1 tooltip, p2 link (+target), p3 interactive, p4 css classes and styles given
@@ -65,7 +74,11 @@ Controls ==
   \* ProgressBar: p1 number of sub-progresses, p2 total None (0) / 10 (1), p3 interactive
   \cup Ctl("progress", 0..2, 0..1, 0..1, {0})
 
-ASSUME \A n \in {"tab", "label", "badge", "labelgroup", "tooltip", "progress"} : \E c \in Controls : c.ctl = n
+\* only interactive controls accept updates
+Controls == {c \in AllControls : c.upd > 0 => Interactive(c)}
+
+ASSUME \A n \in {"tab", "label", "badge", "labelgroup", "tooltip", "progress"} :
+         \A u \in 0..2 : \E c \in Controls : c.ctl = n /\ c.upd = u
 ASSUME \A pos \in 0..1 : \E c \in Controls : c.ctl = "tab" /\ c.p1 = pos
 
 \* what happened on the rendering thread BEFORE the document is rendered: renderings (or option scopes)
